@@ -1,11 +1,138 @@
-(* Props/C04.v -- placeholder while the harness is being brought up; replaced below *)
-From Coq Require Import String QArith ZArith Bool Arith List Lia.
-From Ropt Require Import Base.Num Base.ListX Model.Filters.
-Import ListNotations.
+(* Props/C04.v -- property C04: CVaR filter weights realize the tail expectation over the worst fraction.
+   Only statements; each is closed by a lemma of Proofs/Filters.v / Proofs/SortX.v.
 
-Theorem C04_placeholder : forall R first last,
-  check_range R first last = true <-> (first <= last /\ last < R)%nat.
+   Vocabulary (Model/Filters.v, section "specifications"; none of it mentions the sort):
+     values                    the ranking values handed to _get_cvar_weights_from_percentile: ascending = worst first
+                               (minus the weighted objective sum / minus the constraint badness, see the C04_worst theorems)
+     succeeded failed r, rank values failed r      as in C05 (rank 0 = worst successful realization)
+     n = count_ok failed       number of successful realizations
+     stair_m p n = floor(p*n)  number of full steps
+     stair p n k               1/n for k < m, p - m/n for k = m, 0 for k > m *)
+From Coq Require Import String QArith Qabs Qminmax ZArith Bool Arith List Lqa.
+From Ropt Require Import Base.Num Base.ListX Model.Filters Proofs.SortX Proofs.Filters.
+Import ListNotations.
+Open Scope Q_scope.
+
+(* the staircase, for every ensemble size, failure mask, value vector and percentile in (0,1]: in order of badness
+   the successful realizations carry 1/n until mass p is reached, the last one fractionally; everything else 0 *)
+Theorem C04_staircase : forall p values failed r,
+  length failed = length values -> 0 < p -> p <= 1 ->
+  nth r (cvar_weights p values failed) 0 ==
+    if succeeded failed r then stair p (count_ok failed) (rank values failed r) else 0.
+Proof. exact cvar_weights_spec. Qed.
+
+(* "exactly zero elsewhere": failed realizations and every realization ranked after the fractional step carry
+   the literal 0 (Leibniz equality, not merely ==) *)
+Theorem C04_exact_zeros : forall p values failed r,
+  length failed = length values -> 0 < p -> p <= 1 ->
+  succeeded failed r = false \/ (stair_m p (count_ok failed) < rank values failed r)%nat ->
+  nth r (cvar_weights p values failed) 0 = 0.
+Proof. exact cvar_weights_zero. Qed.
+
+Theorem C04_failed_zero : forall p values failed r,
+  length failed = length values -> 0 < p -> p <= 1 -> nth r failed true = true ->
+  nth r (cvar_weights p values failed) 0 = 0.
 Proof.
-  intros R f l. unfold check_range. rewrite !andb_true_iff, !Nat.ltb_lt, Nat.leb_le. lia.
+  intros p values failed r HL Hp Hp1 Hf. apply cvar_weights_zero; try assumption.
+  left. unfold succeeded. rewrite Hf. reflexivity.
 Qed.
-Print Assumptions C04_placeholder.
+
+(* the fractional step lies in [0, 1/n) and at most n steps are full: the floor never produces a negative remainder
+   or an extra active realization *)
+Theorem C04_fraction_bounds : forall p n, (0 < n)%nat -> 0 < p -> p <= 1 ->
+  (stair_m p n <= n)%nat /\
+  0 <= p - nq (stair_m p n) / nq n /\ p - nq (stair_m p n) / nq n < 1 / nq n.
+Proof.
+  intros p n Hn Hp Hp1. split; [apply (floor_bounds p n Hn Hp Hp1)|]. apply frac_bounds; assumption.
+Qed.
+
+Theorem C04_nonneg : forall p values failed,
+  length failed = length values -> 0 < p -> p <= 1 ->
+  Forall (fun x => 0 <= x) (cvar_weights p values failed).
+Proof. exact cvar_weights_nonneg. Qed.
+
+Theorem C04_sum_p : forall p values failed,
+  length failed = length values -> 0 < p -> p <= 1 -> (0 < count_ok failed)%nat ->
+  qsum (cvar_weights p values failed) == p.
+Proof. exact cvar_weights_sum. Qed.
+
+(* with the mean estimator (failed weights zeroed, weights normalised by their sum, dot product) the value of a
+   function f under the CVaR weights is the CVaR_p tail mean of its empirical distribution over the successes:
+   (1/p) * ( (1/n) * sum_{k<m} f_(k) + (p - m/n) * f_(m) ), f_(k) the value of the k-th worst realization *)
+Theorem C04_tail_mean : forall p values failed f,
+  length failed = length values -> length f = length failed -> 0 < p -> p <= 1 -> (0 < count_ok failed)%nat ->
+  exists v, mean_value (cvar_weights p values failed) failed f = Some v /\
+            v == tail_mean p (ranked failed values) f.
+Proof. exact cvar_tail_mean. Qed.
+
+(* "worst": objective filters rank by the largest weighted sum of the chosen objectives ... *)
+Theorem C04_worst_objective : forall cfg sort objs r s, (r < length objs)%nat -> (s < length objs)%nat ->
+  (nth r (cvar_objective_keys cfg sort objs) 0 <= nth s (cvar_objective_keys cfg sort objs) 0 <->
+   objective_key (c_ow cfg) sort (nth s objs []) <= objective_key (c_ow cfg) sort (nth r objs [])).
+Proof.
+  intros cfg sort objs r s Hr Hs. rewrite !cvar_objective_key_nth by assumption. split; intro H; lra.
+Qed.
+
+(* ... constraint filters by the badness max(lower - c, c - upper): largest value for upper-bounded, smallest for
+   lower-bounded, farthest from the target for equalities; two-sided constraints are inside iff badness <= 0 *)
+Theorem C04_worst_constraint : forall cfg sort c r s, (r < length c)%nat -> (s < length c)%nat ->
+  let bad i := badness (nth sort (c_lower cfg) NInf) (nth sort (c_upper cfg) PInf) (nan0 (nth sort (nth i c []) None)) in
+  (nth r (cvar_constraint_keys cfg sort c) 0 <= nth s (cvar_constraint_keys cfg sort c) 0 <-> bad s <= bad r).
+Proof.
+  intros cfg sort c r s Hr Hs bad.
+  assert (Er : nth r (cvar_constraint_keys cfg sort c) 0 = - bad r) by (apply cvar_constraint_key_nth; exact Hr).
+  assert (Es : nth s (cvar_constraint_keys cfg sort c) 0 = - bad s) by (apply cvar_constraint_key_nth; exact Hs).
+  rewrite Er, Es. generalize (bad r) (bad s). intros x y. split; intro H; lra.
+Qed.
+
+Theorem C04_worst_direction : forall l u t c1 c2 c,
+  (badness NInf (Fin u) c1 <= badness NInf (Fin u) c2 <-> c1 <= c2) /\
+  (badness (Fin l) PInf c1 <= badness (Fin l) PInf c2 <-> c2 <= c1) /\
+  badness (Fin t) (Fin t) c == Qabs (c - t) /\
+  (badness (Fin l) (Fin u) c <= 0 <-> l <= c <= u).
+Proof.
+  intros l u t c1 c2 c. split; [apply badness_upper|]. split; [apply badness_lower|].
+  split; [apply badness_equality | apply badness_two_sided].
+Qed.
+
+(* without a successful realization the filter ends the evaluation with TOO_FEW_REALIZATIONS (never a division by
+   zero); with at least one it always returns the staircase weights *)
+Theorem C04_empty_is_too_few_objective : forall cfg sort p objs cns, 0 < p -> p <= 1 ->
+  get_weights cfg (CvarObjective sort p) objs cns =
+    if Nat.eqb (count_ok (col0_failed objs)) 0 then Abort too_few
+    else Ok (cvar_weights p (cvar_objective_keys cfg sort objs) (col0_failed objs)).
+Proof. exact cvar_objective_outcome. Qed.
+
+Theorem C04_empty_is_too_few_constraint : forall cfg sort p objs c, 0 < p -> p <= 1 ->
+  get_weights cfg (CvarConstraint sort p) objs (Some c) =
+    if Nat.eqb (count_ok (col0_failed c)) 0 then Abort too_few
+    else Ok (cvar_weights p (cvar_constraint_keys cfg sort c) (col0_failed c)).
+Proof. exact cvar_constraint_outcome. Qed.
+
+(* non-vacuity: the input of the repaired defect F04a (10 realizations, p = the double 0.3): three realizations carry
+   1/10, the fourth the (positive, tiny) remainder, nothing is negative; and an ensemble with a failed member *)
+Example C04_example :
+  let p := Q_ 5404319552844595 18014398509481984 in   (* the double nearest to 0.3, slightly below 3/10 *)
+  let values := map (fun k => inject_Z k) [0; 1; 2; 3; 4; 5; 6; 7; 8; 9]%Z in
+  let failed := repeat false 10 in
+  length failed = length values /\ 0 < p /\ p <= 1 /\ stair_m p 10 = 2%nat /\
+  forallb (Qleb 0) (cvar_weights p values failed) = true /\
+  Qeqb (qsum (cvar_weights p values failed)) p = true /\
+  map (fun x => Qeqb x 0) (cvar_weights p values failed) =
+    [false; false; false; true; true; true; true; true; true; true] /\
+  cvar_weights (Q_ 1 2) [Q_ 3 1; Q_ 9 1; Q_ 1 1; Q_ 2 1] [false; true; false; false]
+    = [0; 0; 1 / nq 3; Qmax (Q_ 1 2 - nq 1 * (1 / nq 3)) 0].
+Proof. vm_compute. repeat split; reflexivity || discriminate. Qed.
+
+Print Assumptions C04_staircase.
+Print Assumptions C04_exact_zeros.
+Print Assumptions C04_failed_zero.
+Print Assumptions C04_fraction_bounds.
+Print Assumptions C04_nonneg.
+Print Assumptions C04_sum_p.
+Print Assumptions C04_tail_mean.
+Print Assumptions C04_worst_objective.
+Print Assumptions C04_worst_constraint.
+Print Assumptions C04_worst_direction.
+Print Assumptions C04_empty_is_too_few_objective.
+Print Assumptions C04_empty_is_too_few_constraint.
